@@ -152,3 +152,114 @@ contract(A + "Action.finish", props=["C03", "C02", "C13", "C07"],
                   ("rep-ok", "rep_ok(self) and cur_ok()"),
                   ("positions-elsewhere", "only_changed('_last_child', self, curact())", ["C02"]),
                   ("own-level-unchanged", "lvl(self) == old(lvl(self)) and uu(self) == old(uu(self))")])
+
+FINISH_GHOSTS = dict(ghosts={"R1": "seqe", "R2": "seqe", "E": "ev"}, ghost_defaults={"R1": "empty_log()"})
+
+contract(A + "Action.__exit__", props=["C03", "C02", "C04", "C05", "C07"],
+         types={"type": "Any", "exception": "Opt[Exc]", "traceback": "Any"}, returns="none",
+         ghosts={"R1": "seqe", "R2": "seqe", "E": "ev"},
+         after={"Action.finish#0": [("R1", "R1"), ("R2", "R2"), ("E", "E")]},
+         requires=[("rep-ok", "rep_ok(self)"), ("entered", TOKEN_OK),
+                   ("body-restored-context", "CTX[me] == box(self)"),
+                   ("not-already-current-when-entered", "typed(self._parent_token, 'Token').tok_old != box(self)"),
+                   ("previous-ok", "implies(typed(self._parent_token, 'Token').tok_old != UNSET and typed(self._parent_token, 'Token').tok_old is not None, "
+                                   "pos_ok(typed(typed(self._parent_token, 'Token').tok_old, 'Action')))"),
+                   ("previous-typed", "typed(self._parent_token, 'Token').tok_old == UNSET or typed(self._parent_token, 'Token').tok_old is None or isinst(typed(self._parent_token, 'Token').tok_old, 'Action', True)"),
+                   ("not-finished", "not self._finished")],
+         modifies=LOGGING_FRAME + ["self._finished", "self._parent_token", "#CTX[me]", "field:tok_used", "dict(self._successFields)", "field:$dom", "field:$map"],
+         ensures=[("context-restored", "CTX[me] == old(typed(self._parent_token, 'Token').tok_old)", ["C04"]),
+                  ("other-contexts-untouched", "forall(lambda c: implies(c != me, CTX[c] == old(CTX[c])), 'int')", ["C05"]),
+                  ("token-cleared", "self._parent_token is None", ["C04"]),
+                  ("returns-none-so-exception-propagates", "result is None", ["C03"]),
+                  ("finished", "self._finished == True", ["C03"]),
+                  ("exactly-one-end-message",
+                   "LOG == old(LOG) + R1 + [E] + R2 and all_reports(R1) and all_reports(R2) and E.tag == 'write' "
+                   "and E.d == ite(exception is None, 'succeeded', 'failed') and E.g == uu(self) "
+                   "and seq(E.f) == lvl(self) + [old(pos(self)) + 1]", ["C03", "C02"]),
+                  ("end-is-last", "pos(self) == old(pos(self)) + 1", ["C02"])])
+
+contract(A + "Action.addSuccessFields", props=["C03", "C07"], types={"fields": "dict"}, returns="none",
+         modifies=["dict(self._successFields)"],
+         ensures=[("merged", "dict_of(self._successFields) == update(old(dict_of(self._successFields)), old(dict_of(fields)))", ["C03"]),
+                  ("nothing-logged", "LOG == old(LOG)", ["C03"])])
+
+contract(A + "Action.child", props=["C02", "C01", "C04"],
+         types={"logger": "Opt[role:ILogger]", "action_type": "Any", "serializers": "Opt[_ActionSerializers]"}, returns="Action",
+         requires=[("rep-ok", "rep_ok(self)")],
+         modifies=["self._last_child"],
+         ensures=[("fresh-action", "fresh(result)"),
+                  ("same-task", "uu(result) == uu(self)", ["C02"]),
+                  ("level-extends-parent-at-next-position", "lvl(result) == old(lvl(self)) + [old(pos(self)) + 1]", ["C02"]),
+                  ("parent-position-consumed", "pos(self) == old(pos(self)) + 1 and rep_ok(self)", ["C02"]),
+                  ("child-unstarted", "result._last_child is None and rep_ok(result) and result._finished == False"),
+                  ("child-fields", "atype(result) == action_type and result._serializers is serializers and implies(logger is not None, box(result._logger) == logger)"),
+                  ("child-dicts-private", "fresh(result._successFields) and fresh(result._identification)")])
+
+LOG_KEYS = "'timestamp', 'task_uuid', 'task_level', 'message_type'"
+contract(A + "Action.log", props=["C02", "C01", "C07", "C13"],
+         types={"message_type": "Any", "fields": "dict[__eliot_logger__:role:ILogger;*:Any]"}, returns="none",
+         ghosts={"R": "seqe", "L": "Any", "SER": "Any"},
+         snapshots={"ILogger.write#0": [("L", "box(self)"), ("SER", "box(serializer)")]},
+         after={"ILogger.write#0": [("R", "R")]},
+         requires=[("rep-ok", "rep_ok(self)"), ("current-ok", "cur_ok()"),
+                   ("fields-private", "forall(lambda a: box(fields) != a._identification and box(fields) != a._successFields, 'ref:obj')")],
+         modifies=LOGGING_FRAME + ["dict(fields)"],
+         ensures=[("one-write-then-only-reports", "LOG == old(LOG) + [write_ev(L, fields, SER)] + R and all_reports(R)", ["C01", "C02"]),
+                  ("logger-chosen", "L == old(dget(fields, '__eliot_logger__', self._logger)) and SER == old(dget(fields, '__eliot_serializer__', None))", ["C13"]),
+                  ("placed-at-next-position", "seq(dget(fields, 'task_level')) == old(lvl(self)) + [old(pos(self)) + 1]", ["C02"]),
+                  ("task-uuid", "dget(fields, 'task_uuid') == uu(self) and dget(fields, 'message_type') == message_type and is_float(dget(fields, 'timestamp'))", ["C02"]),
+                  ("caller-fields-kept", "without(fields, %s) == without(old(dict_of(fields)), %s, '__eliot_logger__', '__eliot_serializer__')" % (LOG_KEYS, LOG_KEYS), ["C01"]),
+                  ("position-consumed", "pos(self) >= old(pos(self)) + 1 and implies(curact() is not self, pos(self) == old(pos(self)) + 1) and rep_ok(self)", ["C02"]),
+                  ("positions-elsewhere", "only_changed('_last_child', self, curact())", ["C02"]),
+                  ("current-ok", "cur_ok()")])
+
+START_POST = [("one-start-write-then-only-reports", "LOG == old(LOG) + [write_ev(result._logger, E.b, "
+               "ite(_serializers is None, None, typed(_serializers, '_ActionSerializers').start))] + R and all_reports(R) and E == LOG[len(old(LOG))]", ["C03", "C13"]),
+              ("status-started", "E.d == 'started' and is_float(dget(E.b, 'timestamp'))", ["C03", "C02"]),
+              ("action-type", "dget(E.b, 'action_type') == action_type and atype(result) == action_type"),
+              ("start-at-position-1", "seq(E.f) == lvl(result) + [1] and E.g == uu(result)", ["C02"]),
+              ("caller-fields-kept", "without(E.b, %s) == without(old(dict_of(fields)), %s)" % (START_KEYS, START_KEYS), ["C01"]),
+              ("result-started", "fresh(result) and pos(result) == 1 and rep_ok(result) and result._finished == False and result._serializers is _serializers", ["C02"]),
+              ("context-untouched", "CTX == old(CTX)", ["C04", "C05"]),
+              ("current-ok", "cur_ok()")]
+START_TYPES = {"logger": "Opt[role:ILogger]", "action_type": "Any", "_serializers": "Opt[_ActionSerializers]", "fields": "dict"}
+
+contract(A + "startTask", props=["C02", "C04", "C01", "C07", "C13"], types=START_TYPES, returns="Action",
+         ghosts={"R": "seqe", "E": "ev"}, after={"Action._start#0": [("R", "R"), ("E", "write_ev(self._logger, fields, ite(self._serializers is None, None, typed(self._serializers, '_ActionSerializers').start))")]},
+         requires=[("current-ok", "cur_ok()")],
+         modifies=LOGGING_FRAME + ["dict(fields)", "field:$uuid_str"],
+         ensures=START_POST + [("new-tree-whatever-the-context", "seq(result._task_level._level) == []", ["C04"]),
+                               ("fresh-uuid", "is_str(uu(result))", ["C02"]),
+                               ("positions-elsewhere", "only_changed('_last_child', result, curact())", ["C02"])])
+
+contract(A + "start_action", props=["C02", "C04", "C05", "C01", "C07", "C13"], types=START_TYPES, returns="Action",
+         ghosts={"R": "seqe", "E": "ev"},
+         after={"Action._start#0": [("R", "R"), ("E", "write_ev(self._logger, fields, ite(self._serializers is None, None, typed(self._serializers, '_ActionSerializers').start))")],
+                "startTask#0": [("R", "R"), ("E", "E")]},
+         requires=[("current-ok", "cur_ok()"),
+                   ("current-rep-ok", "implies(curact() is not None, rep_ok(typed(curact(), 'Action')))")],
+         modifies=LOGGING_FRAME + ["dict(fields)", "field:$uuid_str"],
+         ensures=START_POST + [
+             ("no-current-action-starts-a-task", "implies(curact() is None, seq(result._task_level._level) == [])", ["C04"]),
+             ("child-of-the-current-action", "implies(curact() is not None, uu(result) == old(uu(typed(curact(), 'Action'))) and "
+              "lvl(result) == old(lvl(typed(curact(), 'Action'))) + [old(pos(typed(curact(), 'Action'))) + 1])", ["C04", "C02", "C05"]),
+             ("parent-position-consumed", "implies(curact() is not None, pos(typed(curact(), 'Action')) >= old(pos(typed(curact(), 'Action'))) + 1)", ["C02"]),
+             ("positions-elsewhere", "only_changed('_last_child', result, curact())", ["C02"])])
+
+contract(A + "log_message", props=["C02", "C04", "C05", "C01", "C07", "C08"],
+         types={"message_type": "Any", "fields": "dict[__eliot_logger__:role:ILogger;*:Any]"}, returns="none",
+         ghosts={"R": "seqe", "E": "ev"},
+         after={"Action.log#0": [("R", "R"), ("E", "write_ev(L, fields, SER)")]},
+         requires=[("current-ok", "cur_ok()"),
+                   ("current-rep-ok", "implies(curact() is not None, rep_ok(typed(curact(), 'Action')))"),
+                   ("no-field-named-self", "'self' not in fields")],
+         modifies=LOGGING_FRAME + ["dict(fields)", "field:$uuid_str"],
+         ensures=[("one-write-then-only-reports", "LOG == old(LOG) + [E] + R and all_reports(R) and E.tag == 'write'", ["C01", "C02"]),
+                  ("message-type", "E.e == message_type and E.d is None or 'action_status' in old(dict_of(fields))"),
+                  ("serializer", "E.c == old(dget(fields, '__eliot_serializer__', None))", ["C13"]),
+                  ("in-current-action", "implies(curact() is not None, E.g == old(uu(typed(curact(), 'Action'))) and "
+                   "seq(E.f) == old(lvl(typed(curact(), 'Action'))) + [old(pos(typed(curact(), 'Action'))) + 1])", ["C04", "C02", "C05"]),
+                  ("own-task-when-no-current-action", "implies(curact() is None, seq(E.f) == [1] and is_str(E.g))", ["C04", "C02"]),
+                  ("positions-elsewhere", "only_changed('_last_child', curact())", ["C02"]),
+                  ("context-untouched", "CTX == old(CTX)", ["C04", "C05"]),
+                  ("current-ok", "cur_ok()")])
